@@ -84,6 +84,14 @@ func init() {
 				{File: "internal/socks5/udp.go", Old: "\t\tn, clientAddr, err := a.UDPConn.ReadFromUDP(buf)\n\t\tif err != nil {\n\t\t\tif a.IsClosed() {\n\t\t\t\treturn\n\t\t\t}\n\t\t\tcontinue\n\t\t}\n", New: "\t\tn, from, err := a.UDPConn.ReadFromUDPAddrPort(buf)\n\t\tif err != nil {\n\t\t\tif a.IsClosed() {\n\t\t\t\treturn\n\t\t\t}\n\t\t\tcontinue\n\t\t}\n\t\tclientAddr := &net.UDPAddr{IP: from.Addr().AsSlice(), Port: int(from.Port())}\n"},
 				{File: "internal/socks5/udp.go", Old: "\t\tif a.ActualClientAddr == nil {\n\t\t\ta.ActualClientAddr = clientAddr\n\t\t}\n", New: "\t\tif a.ActualClientAddr == nil {\n\t\t\ta.ActualClientAddr = clientAddr\n\t\t} else {\n\t\t\ta.ActualClientAddr.Port = clientAddr.Port\n\t\t}\n"},
 			}},
+			{Name: "rewrite: per-datagram work (check, record, relay) moved into a helper", Edits: []Edit{
+				{File: "internal/socks5/udp.go", Old: "\t\t// Only the client that owns the association may use the relay.\n", New: "\t\ta.handleDatagram(buf[:n], clientAddr)\n\t}\n}\n\nfunc (a *UDPAssociation) handleDatagram(data []byte, clientAddr *net.UDPAddr) {\n\tfor once := true; once; once = false {\n\t\tn := len(data)\n\t\tbuf := data\n\t\t// Only the client that owns the association may use the relay.\n"},
+			}},
+			{Name: "helper records the sender before its own source check", ExpectRule: "C22.R2", Edits: []Edit{
+				{File: "internal/socks5/udp.go", Old: "\t\t// Only the client that owns the association may use the relay.\n", New: "\t\ta.handleDatagram(buf[:n], clientAddr)\n\t}\n}\n\nfunc (a *UDPAssociation) handleDatagram(data []byte, clientAddr *net.UDPAddr) {\n\tfor once := true; once; once = false {\n\t\tn := len(data)\n\t\tbuf := data\n\t\t// Only the client that owns the association may use the relay.\n"},
+				{File: "internal/socks5/udp.go", Old: "\t\ta.mu.Lock()\n\t\tif a.ActualClientAddr == nil {\n\t\t\ta.ActualClientAddr = clientAddr\n\t\t}\n\t\ta.mu.Unlock()\n", New: ""},
+				{File: "internal/socks5/udp.go", Old: "\t\towner := a.ownerIP()\n", New: "\t\ta.mu.Lock()\n\t\tif a.ActualClientAddr == nil {\n\t\t\ta.ActualClientAddr = clientAddr\n\t\t}\n\t\ta.mu.Unlock()\n\t\towner := a.ownerIP()\n"},
+			}},
 			{Name: "rewrite: reply address copied into a fresh UDPAddr", Edits: []Edit{
 				{File: "internal/socks5/udp.go", Old: "\t_, err := a.UDPConn.WriteToUDP(packet, clientAddr)\n", New: "\tdst := &net.UDPAddr{IP: clientAddr.IP, Port: clientAddr.Port}\n\t_, err := a.UDPConn.WriteToUDP(packet, dst)\n"},
 			}},
@@ -131,6 +139,7 @@ func (o c22Orig) String() string {
 type c22cx struct {
 	p                              *kit.Program
 	fExpected, fActual, fTCP, fUDP *types.Var
+	relayingFns                    map[*ssa.Function]bool
 }
 
 const c22MaxDepth = 4
@@ -480,6 +489,12 @@ func (cx *c22cx) trueOnlyOnMatch(fn *ssa.Function, bind map[*ssa.Parameter]c22Or
 
 // verifiedEdges: the CFG edges of fn taken exactly when a source/owner match holds.
 func (cx *c22cx) verifiedEdges(fn *ssa.Function) map[kit.Edge]bool {
+	return cx.verifiedEdgesBind(fn, nil)
+}
+
+// verifiedEdgesBind is verifiedEdges for a helper whose parameters carry the given origins (the
+// datagram source handed in by the reading function).
+func (cx *c22cx) verifiedEdgesBind(fn *ssa.Function, bind map[*ssa.Parameter]c22Orig) map[kit.Edge]bool {
 	out := map[kit.Edge]bool{}
 	for _, b := range fn.Blocks {
 		if len(b.Instrs) == 0 || len(b.Succs) != 2 {
@@ -491,12 +506,68 @@ func (cx *c22cx) verifiedEdges(fn *ssa.Function) map[kit.Edge]bool {
 		}
 		base, neg := kit.StripNot(ifi.Cond)
 		for _, raw := range []bool{true, false} {
-			if cx.match(base, raw != neg, nil, 0) {
+			if cx.match(base, raw != neg, bind, 0) {
 				if raw {
 					out[kit.Edge{From: b, To: b.Succs[0]}] = true
 				} else {
 					out[kit.Edge{From: b, To: b.Succs[1]}] = true
 				}
+			}
+		}
+	}
+	return out
+}
+
+// sourceBind: the parameters of callee that receive a pure datagram source at call site c
+// (evaluated in the caller, whose own parameters carry callerBind).
+func (cx *c22cx) sourceBind(c ssa.CallInstruction, callee *ssa.Function, callerBind map[*ssa.Parameter]c22Orig) map[*ssa.Parameter]c22Orig {
+	bind := map[*ssa.Parameter]c22Orig{}
+	args := c.Common().Args
+	for i, prm := range callee.Params {
+		if i < len(args) {
+			if o := cx.origin(args[i], callerBind, 0, map[ssa.Value]bool{}); o.pureSource() {
+				bind[prm] = o
+			}
+		}
+	}
+	return bind
+}
+
+// helperVerifies: in helper fn, entered with the datagram source in the bound parameters, every
+// instruction selected by isSink (relay invokes, stores of the recorded client, calls of further
+// relaying helpers) is reached only across a source==owner edge taken inside the helper.
+func (cx *c22cx) helperVerifies(fn *ssa.Function, bind map[*ssa.Parameter]c22Orig, sinks []ssa.Instruction, depth int) bool {
+	if len(bind) == 0 || len(fn.Blocks) == 0 || len(fn.Blocks[0].Instrs) == 0 || depth > 3 {
+		return false
+	}
+	edges := cx.verifiedEdgesBind(fn, bind)
+	entry := []ssa.Instruction{fn.Blocks[0].Instrs[0]}
+	for _, sk := range sinks {
+		if sk == entry[0] || c22ReachableUnverified(entry, sk, edges) {
+			// a call of a further helper may verify inside
+			if c, ok := sk.(ssa.CallInstruction); ok {
+				if g := c.Common().StaticCallee(); g != nil && g.Blocks != nil && kit.IsRepoPkg(kit.FuncPkgPath(g)) {
+					if inner := cx.relaySinks(g); len(inner) > 0 && cx.helperVerifies(g, cx.sourceBind(c, g, bind), inner, depth+1) {
+						continue
+					}
+				}
+			}
+			return false
+		}
+	}
+	return true
+}
+
+// relaySinks: the relay invokes of fn and its calls of functions that (transitively) relay.
+func (cx *c22cx) relaySinks(fn *ssa.Function) []ssa.Instruction {
+	var out []ssa.Instruction
+	for _, f := range kit.WithClosures(fn) {
+		for _, c := range kit.Calls(f) {
+			cal := kit.CalleeOf(c)
+			if cal.Iface && cal.Name == "RelayUDPDatagram" && cal.Pkg == kit.PkgPath("internal/socks5") {
+				out = append(out, c22Lift(c))
+			} else if cal.Static != nil && cx.relayingFns[kit.TopLevel(cal.Static)] {
+				out = append(out, c22Lift(c))
 			}
 		}
 	}
@@ -675,6 +746,7 @@ func runC22(p *kit.Program, r *kit.Report) {
 			}
 		}
 	}
+	cx.relayingFns = relaying
 	for _, fn := range p.RepoFuncs() {
 		ss := sites[fn]
 		if len(ss) == 0 {
@@ -692,6 +764,18 @@ func runC22(p *kit.Program, r *kit.Report) {
 				continue
 			}
 			bad := c22ReachableUnverified(rd, s.in, verified[fn])
+			if bad {
+				// the reading function hands the datagram and its source to a helper that performs
+				// the source check itself
+				if c, ok := s.in.(ssa.CallInstruction); ok {
+					if g := c.Common().StaticCallee(); g != nil && g.Blocks != nil && relaying[kit.TopLevel(g)] {
+						if cx.helperVerifies(g, cx.sourceBind(c, g, nil), cx.relaySinks(g), 0) {
+							r.OK("C22.R1", key, pos, "the helper %s compares the source it is handed with the owner before every relay", kit.FuncName(g))
+							continue
+						}
+					}
+				}
+			}
 			r.Decide(!bad, "C22.R1", key, pos,
 				"every path from the datagram read to this "+s.what+" crosses a source==owner edge",
 				"a datagram can reach this "+s.what+" without its source address having been compared equal to the association's owner (request-named address, recorded client or control-connection peer): any host that can reach the relay port injects traffic into the mesh")
@@ -761,8 +845,11 @@ func runC22(p *kit.Program, r *kit.Report) {
 				break
 			}
 			if c22ReachableUnverified(rd, c, verified[ctop]) {
-				okAll, why = false, "called from "+kit.FuncName(ctop)+" before/without the source check"
-				break
+				// the helper may perform the source check itself before recording
+				if !cx.helperVerifies(top, cx.sourceBind(c, top, nil), []ssa.Instruction{acc.Instr}, 0) {
+					okAll, why = false, "called from "+kit.FuncName(ctop)+" before/without the source check"
+					break
+				}
 			}
 		}
 		r.Decide(okAll, "C22.R2", key, pos,
